@@ -21,7 +21,7 @@ _COMMON_NOTE = ("Trusted: Lean kernel + the three standard axioms; the hand tran
                 "type (Tracked/Fixed) and allocator ledger. Modelled, not verified: AVL rebalancing and hash chains are abstracted "
                 "(the model keeps iteration order, slots, free lists, blocks; lookups are by payload) - their behaviour is the subject of C01/C02; "
                 "comparisons / hashing of elements are not events of the log (the harness still counts any use of a destroyed object). "
-                "Not driven by this check: MultiMap::insert(hint) (position inside a run of equal keys depends on the tree shape), List::sort (swaps "
+                "MultiMap::insert(hint) is driven only with keys not yet present (inside a run of equal keys the position depends on the tree shape). Not driven: List::sort (swaps "
                 "payloads between nodes), find() as an operation, Array(capacity)-constructor variants beyond newcap. Allocation never fails; "
                 "element constructors do not throw. The model mirrors the REPAIRED code (fixes/life/0001..0004: D2 self-assignment, D3 Array alias, "
                 "D4 List self-insert, D5 MultiMap copy); on a tree without these patches the check reports them as violations.")
@@ -243,8 +243,9 @@ class Ref:
                 x.insert(pos, self.fresh(key, val))
             if op == "insert" and n == 3:
                 put(a[1], a[2])
-            elif op == "inserthint" and n == 4 and k == "M":
+            elif op == "inserthint" and n == 4:
                 if a[1] > len(x): return False
+                if k == "U" and any(e[0] == a[2] for e in x): return False      # MultiMap: driven only with a fresh key
                 put(a[2], a[3])
             elif op == "insertref" and n == 3:
                 if a[2] >= len(x): return False
@@ -435,8 +436,8 @@ def gen_history(rng, length, kinds=KINDS, keys=6, alias=0.3, grow=0.55):
                 cs += [f"M.inserthint {v} {p} {key} {nv()}", f"M.insertmap {v} {w}", f"M.remove {v} {key}"]
                 ws += [3, 1, 2] if gr else [0, 0, 4]
             else:
-                cs += [f"U.remove {v} {key}"]
-                ws += [1] if gr else [3]
+                cs += [f"U.remove {v} {key}", f"U.inserthint {v} {p} {key} {nv()}"]
+                ws += [1, 3] if gr else [3, 0]
                 if n > 12:
                     ws[0] = ws[1] = 0
             op = rng.choices(cs, ws)[0]
@@ -472,7 +473,7 @@ SMALL = {
     "M": ["M.removefront 0", "M.removeback 0", "M.insert 0 2 1", "M.insert 0 1 2", "M.insert 0 3 3", "M.insert 0 2 4", "M.inserthint 0 0 0 5", "M.inserthint 0 1 2 6", "M.insertref 0 4 0", "M.insertref 0 2 0",
           "M.insertmap 0 0", "M.insertmap 0 1", "M.insertmap 1 0", "M.remove 0 2", "M.removeat 0 0", "M.removeat 0 1", "M.set 0 0 7", "M.clear 0",
           "M.assign 0 0", "M.assign 0 1", "M.assign 1 0", "M.copy 1 0", "M.new 0"],
-    "U": ["U.removefront 0", "U.removeback 0", "U.insert 0 2 1", "U.insert 0 1 2", "U.insert 0 2 3", "U.insert 0 3 4", "U.insertref 0 2 0", "U.insertref 0 0 1", "U.removeat 0 0", "U.removeat 0 1", "U.remove 0 2", "U.remove 0 1",
+    "U": ["U.removefront 0", "U.removeback 0", "U.insert 0 2 1", "U.insert 0 1 2", "U.insert 0 2 3", "U.insert 0 3 4", "U.insertref 0 2 0", "U.insertref 0 0 1", "U.removeat 0 0", "U.removeat 0 1", "U.remove 0 2", "U.remove 0 1", "U.inserthint 0 0 0 5", "U.inserthint 0 1 4 6",
           "U.set 0 0 7", "U.clear 0", "U.assign 0 0", "U.assign 0 1", "U.assign 1 0", "U.copy 1 0", "U.copy 0 1", "U.new 0"],
     "H": ["H.removefront 0", "H.removeback 0", "H.append 0 2 1", "H.append 0 1 2", "H.append 0 2 3", "H.prepend 0 3 4", "H.insert 0 1 4 5", "H.appendref 0 5 0", "H.appendref 0 2 1", "H.remove 0 2",
           "H.removeat 0 0", "H.removeat 0 1", "H.set 0 0 7", "H.clear 0", "H.swap 0 1", "H.assign 0 0", "H.assign 0 1", "H.assign 1 0", "H.copy 1 0", "H.new 0", "H.newcap 0 1"],
@@ -629,7 +630,7 @@ def check(ctx):
         "allocation never fails; element constructors / assignments do not throw",
         "the element type's comparison, hash and copy operations have no side effect on containers (they only touch the ledger)",
         "object locations are canonicalised as (block serial, slot index, field) / sentinel / caller temporary; raw addresses are never compared",
-        "AVL shape and hash chains are not part of the model (iteration order and lookup by payload are); MultiMap::remove(key) removes the first of the equal keys (MultiMap::find as repaired by area Avl, fixes/avl); MultiMap::insert(hint), List::sort are not driven",
+        "AVL shape and hash chains are not part of the model (iteration order and lookup by payload are); MultiMap::remove(key) removes the first of the equal keys (MultiMap::find as repaired by area Avl, fixes/avl); MultiMap::insert(hint) only with a fresh key; List::sort is not driven",
     ]
     proof_ok = C.proof_stage(ctx, PROPS_BY[ctx.prop], [DRIVER], leanchecker=(ctx.tier == "thorough"))
     ctx.cov["open_statements"] = list(OPEN[ctx.prop])
